@@ -12,6 +12,7 @@ SHAPE_PROPS = {"C01", "C02", "C03", "C04", "C06", "C07", "C09", "C17"}
 OWN = {"C08": "c08", "C12": "c12", "C18": "c18"}
 
 
+
 def build_gen(run):
     env = dict(os.environ, CARGO_NET_OFFLINE="true", RUSTFLAGS="--cfg miniscript_verif", CARGO_TARGET_DIR=GEN_TARGET, MSVERIF_NO_GENERATED="1")
     rc, out, dt = run(["cargo", "build", "--offline", "--bin", "gen", "--release"], env=env, logf=os.path.join(VERIF, "logs", "gen_build.log"))
